@@ -1131,6 +1131,82 @@ BOUNDARY = [("vk", 6, 2, 2.0, 2.0, 2.0), ("fried", 9, 2, 1.0, 0.5, 1.0), ("vk", 
             ("vk", 9, 1, 2.0 ** -10, 2.0 ** -4, 2.0 ** -3)]
 
 
+def oracle_retune(chk, rng, max_size):
+    """Round 6 — the matrices REBUILT on an existing screen (make_covmats(); makeAMatrix(); makeBMatrix(), the only way the API offers
+    to re-tune a screen after setting r0 or L0): with unchanged parameters they are what they were; with r0 -> c·r0 the matrix A is
+    unchanged and B·Bᵀ scales by c^(-5/3) (both exact consequences of the identities); with another L0 they equal those of a fresh
+    screen built with that L0.  Every other clause builds each object once, so a helper that spoils the object's own separation
+    array during the first build (seeded change C04-J: phase_covariance scaling its float64 argument in place) went unseen."""
+    variant, size, par, px, r0, L0 = draw_config(rng, max_size)
+    px = L0 / logu(rng, 6., 120.)
+    obj, rec = construct(variant, size, par, px, r0, L0, rng.getrandbits(32))
+    rep = {"variant": variant, "size": size, "par": par, "pixel_scale": px, "r0": r0, "L0": L0}
+    chk.oracle_cases += 1
+    chk.count("oracle:retune")
+    chk.case(("retune", variant, size, par, px, r0, L0))
+    if obj is None or not all(callable(getattr(obj, m, None)) for m in ("make_covmats", "makeAMatrix", "makeBMatrix")):
+        return
+    def mats():
+        A, B = numpy.array(obj.A_mat, dtype=float), numpy.array(obj.B_mat, dtype=float)
+        return A, B @ B.T
+    def rebuild():
+        obj.make_covmats()
+        obj.makeAMatrix()
+        obj.makeBMatrix()
+    def close(x, y, tol):
+        return x.shape == y.shape and bool(numpy.all(numpy.abs(x - y) <= tol * max(float(numpy.max(numpy.abs(y))), 1e-300)))
+    A0, Q0 = mats()
+    c = rng.choice([0.5, 0.8, 1.25, 2.0, 1.0 + 1e-3])
+    f = rng.choice([0.5, 0.8, 1.25, 2.0])
+    try:
+        rebuild()
+        A1, Q1 = mats()
+        if not (close(A1, A0, 1e-9) and close(Q1, Q0, 1e-9)):
+            chk.fail("retune:rebuild:" + variant, "%s screen (size=%d, par=%d, pixel_scale=%r, r0=%r, L0=%r): make_covmats(); makeAMatrix(); "
+                     "makeBMatrix() called again with unchanged parameters changed A by %.3g and B·Bᵀ by %.3g (relative to the largest entry)"
+                     % (variant, size, par, px, r0, L0, float(numpy.max(numpy.abs(A1 - A0)) / numpy.max(numpy.abs(A0))) if A1.shape == A0.shape else float("nan"),
+                        float(numpy.max(numpy.abs(Q1 - Q0)) / max(numpy.max(numpy.abs(Q0)), 1e-300)) if Q1.shape == Q0.shape else float("nan")), rep)
+            return
+        obj.r0 = c * r0
+        rebuild()
+        A2, Q2 = mats()
+        if not (close(A2, A0, 1e-8) and close(Q2, Q0 * c ** (-5. / 3), 1e-8)):
+            chk.fail("retune:r0:" + variant, "%s screen (size=%d, par=%d, pixel_scale=%r, r0=%r, L0=%r) re-tuned to r0 = %r·r0 by setting the "
+                     "attribute and rebuilding the matrices: A must be unchanged and B·Bᵀ scale by c^(-5/3); A changed by %.3g, B·Bᵀ is off by %.3g "
+                     "(relative to the largest entry)" % (variant, size, par, px, r0, L0, c,
+                                                           float(numpy.max(numpy.abs(A2 - A0)) / numpy.max(numpy.abs(A0))) if A2.shape == A0.shape else float("nan"),
+                                                           float(numpy.max(numpy.abs(Q2 - Q0 * c ** (-5. / 3))) / max(numpy.max(numpy.abs(Q0 * c ** (-5. / 3))), 1e-300)) if Q2.shape == Q0.shape else float("nan")),
+                     dict(rep, c=c))
+            return
+        obj.r0 = r0
+        obj.L0 = f * L0
+        rebuild()
+        A3, Q3 = mats()
+    except Exception as ex:
+        if common_library_exception(ex):
+            chk.fail("retune:raises:%s:%s" % (variant, type(ex).__name__), "%s screen (size=%d, par=%d, pixel_scale=%r, r0=%r, L0=%r): rebuilding the "
+                     "matrices on the existing object raised %r" % (variant, size, par, px, r0, L0, ex), rep)
+        return
+    fresh, _ = construct(variant, size, par, px, r0, f * L0, 1)
+    if fresh is None:
+        return
+    Af, Bf = numpy.array(fresh.A_mat, dtype=float), numpy.array(fresh.B_mat, dtype=float)
+    if not (close(A3, Af, 1e-7) and close(Q3, Bf @ Bf.T, 1e-7)):
+        chk.fail("retune:L0:" + variant, "%s screen (size=%d, par=%d, pixel_scale=%r, r0=%r, L0=%r) re-tuned to L0 = %r by setting the attribute and "
+                 "rebuilding the matrices differs from a fresh screen built with that L0: A by %.3g, B·Bᵀ by %.3g (relative to the largest entry)"
+                 % (variant, size, par, px, r0, L0, f * L0, float(numpy.max(numpy.abs(A3 - Af)) / numpy.max(numpy.abs(Af))) if A3.shape == Af.shape else float("nan"),
+                    float(numpy.max(numpy.abs(Q3 - Bf @ Bf.T)) / max(numpy.max(numpy.abs(Bf @ Bf.T)), 1e-300)) if Q3.shape == Bf.shape[:1] * 2 else float("nan")),
+                 dict(rep, new_L0=f * L0))
+
+
+def common_library_exception(ex):
+    try:
+        from ..runcheck import library_exception
+        return bool(library_exception(ex))
+    except Exception:
+        return True
+
+
 def round5(chk, quick):
     """Round 5 (generator audit): input classes and construction histories the generators above never produce.  They draw from a
     generator of their own (a function of VERIF_SEED only): the cases of the earlier rounds stay what they were for every seed."""
@@ -1169,6 +1245,9 @@ def round5(chk, quick):
     # screens that differ in exactly one argument, built one after the other; earlier ones must keep working
     for _ in range(3 if quick else 40):
         oracle_neighbours(chk, rng, 12 if quick else 24)
+    # the matrices rebuilt on an existing object (unchanged parameters, another r0, another L0)
+    for _ in range(6 if quick else 60):
+        oracle_retune(chk, rng, 12 if quick else 24)
     # sizes beyond the 128 / 129 pixels of the repository's test configuration
     for cfg in [("vk", 136, 2, 0.25, 0.2, 20.)] if quick else [("vk", 136, 2, 0.25, 0.2, 20.), ("fried", 130, 1, 0.25, 0.2, 20.),
                                                             ("fried", 200, 2, 0.2, 0.15, 30.), ("vk", 257, 1, 0.5, 0.2, 20.)]:
